@@ -8,7 +8,7 @@ TB_COMMON = [
 
 PROPS = {
     "C17": {
-        "thm": ["Umya.Thm.C17", "Umya.Thm.C17Gen", "Umya.Thm.C17Regex"],
+        "thm": ["Umya.Thm.C17", "Umya.Thm.C17Gen", "Umya.Thm.C17Regex", "Umya.Thm.C17Parse"],
         "harness": "c17",
         "level": "proof",
         "level_text": "Proof: the codecs of helper/coordinate.rs, helper/range.rs, helper/address.rs and structs/{range,address} are modelled as "
@@ -17,19 +17,35 @@ PROPS = {
         "level_note": "Trusted: Lean kernel + 3 standard axioms; the hand model's faithfulness as exercised by the correspondence stream; "
                       "fancy_regex behaviour on one regex (modelled); ASCII-only upper-casing.",
         "expect_theorems": ["C17_codec_matches_source", "C17_regex_matches_source", "C17_alpha_index", "C17_alpha_index3", "C17_index_alpha", "C17_bijective_numeral",
-                            "C17_coord", "C17_range", "C17_address", "C17_address_quoted", "C17_address_ptn2"],
+                            "C17_coord", "C17_range", "C17_address", "C17_address_quoted", "C17_address_ptn2",
+                            "C17_column_parse_print", "C17_coord_parse_print", "C17_coord_reprint", "C17_coord_trailing_ignored",
+                            "C17_range_parse_print", "C17_range_reprint", "C17_range_bijection",
+                            "C17_address_parse_print", "C17_address_rejoin", "C17_quote_rule", "C17_address_text", "C17_address_canon",
+                            "C17_address_apostrophes"],
         "rule": "exhaustive: every column 0..18279 and every 1-3 letter name; rows 1..1048576 (stride 257 quick / 1 thorough) x "
                 "{A,Z,AA,ZZ,AAA,XFD} x 4 lock combinations; random strings over $A-Za-z0-9:!'\" against the regex model; "
-                "range shapes over boundary corners; sheet names from a special-character alphabet up to 31 chars. "
+                "range shapes over boundary corners; sheet names from a special-character alphabet up to 31 chars; "
+                "parse-then-print (pp coord / range / addr / area / name): texts generated from the canonical grammars of Model/CoordCanon.lean "
+                "(all four range shapes, boundary columns and rows, both locks; qualifiers unquoted, quoted with doubling, badly quoted), one-edit "
+                "near misses of them, and arbitrary strings: print(parse t) of the implementation against the model's, the reply led by the grammar "
+                "predicate evaluated on both sides (harness in Rust, driver = the theorems' hypothesis), counters pp.<kind>.canon.ok / .outside. "
                 "non-trivial = the implementation returned a value (not a panic / all-None); distinct = distinct request line",
         "trusted_base": TB_COMMON + [
             "fancy_regex on the one coordinate regex: modelled by a hand-written matcher, tied behaviourally (random + boundary strings)",
             "ASCII to_uppercase only (non-ASCII case mapping outside the model)",
         ],
         "assumptions": ["sheet names are legal (non-empty, not starting with an apostrophe); address text contains no '!'",
-                        "columns up to ZZZ=18278 (the 3-letter parser's domain), rows < 2^32"],
-        "partial_clauses": ["get_address_ptn2 with apostrophes in the name: un-doubling happens in DefinedName::add_address (C06/C08), "
-                            "checked here by the harness oracle only"],
+                        "columns up to ZZZ=18278 (the 3-letter parser's domain), rows < 2^32",
+                        "parse-then-print holds on the explicit decidable grammars canonCellB / canonRangeB / addrPlainB / canonAreaB (Model/CoordCanon.lean): "
+                        "anchored, upper-case, 1-3 letters, rows 0|[1-9][0-9]* below 2^32; outside them the parser is NOT an inverse of the printer "
+                        "(unanchored pattern: A1B re-prints as A1; A01 as A1; lower case parses to nothing) - witnesses are examples in Thm/C17Parse.lean",
+                        "canonAreaB takes an unquoted qualifier to be any legal sheet name without ' ( ) \" , (a superset of what Excel writes bare); "
+                        "only cell and cell:cell behind a qualifier (what is_address accepts)"],
+        "partial_clauses": ["join_address(split_address(t)) is the identity only for unquoted qualifiers: 'n'!a comes back as n!a (join_address never quotes; "
+                            "stated exactly in C17_address_parse_print); the quoting printer get_address_ptn2 returns canonArea t, not t: the qualifier is "
+                            "re-quoted by the library's own rule (C17_quote_rule: bare only for [0-9a-zA-Z]+ starting with a lower-case letter or a digit run >= 2^32), "
+                            "so Excel's Sheet1!$A$1 comes back as 'Sheet1'!$A$1 - same area (C17_address_canon), different text",
+                            "an unqualified area ($A$1 without sheet) and non-ASCII case mapping are outside the address-level grammar"],
     },
 }
 
